@@ -41,6 +41,7 @@ type cand struct {
 	qc   *lib.QuorumCertificate
 	// what was REALLY signed and by whom (public keys); sigAltered: signature bytes changed after aggregation
 	signedPayload []byte
+	signedFields  string // independent rendering of every bound field at signing time (not derived from QuorumCertificate.SignBytes)
 	signerKeys    [][]byte
 	sigAltered    bool
 	// honest: the certificate could have been produced by honest validators following the protocol for the valid proposal
@@ -206,7 +207,17 @@ func (e *env) signed(kind string, mod func(qc *lib.QuorumCertificate), vs lib.Va
 		panic(err)
 	}
 	qc.Signature = sig
-	return &cand{kind: kind, qc: qc, signedPayload: payload, signerKeys: pubkeysOf(vs, signers)}
+	return &cand{kind: kind, qc: qc, signedPayload: payload, signedFields: boundFields(qc), signerKeys: pubkeysOf(vs, signers)}
+}
+
+// boundFields renders everything a certificate signature must bind, field by field
+func boundFields(qc *lib.QuorumCertificate) string {
+	h := qc.Header
+	if h == nil {
+		h = &lib.View{}
+	}
+	return fmt.Sprintf("net=%d chain=%d height=%d root=%d round=%d phase=%d block=%x results=%x proposer=%x", h.NetworkId, h.ChainId, h.Height, h.RootHeight, h.Round, h.Phase,
+		qc.BlockHash, qc.ResultsHash, qc.ProposerKey)
 }
 
 var fieldNames = []string{"height", "round", "phase", "rootHeight", "chainId", "networkId", "blockHash", "resultsHash", "proposerKey"}
@@ -549,7 +560,7 @@ func (e *env) genCandidate(t *rapid.T) *cand {
 			return e.genCandidateOf(t, "subset")
 		}
 		o := e.oldCerts[rapid.IntRange(0, len(e.oldCerts)-1).Draw(t, "old")]
-		c := &cand{kind: kind, qc: nodesim.CloneQC(o), signedPayload: o.SignBytes(), nontrivial: true, desc: fmt.Sprintf("genuine certificate of height %d", o.Header.Height)}
+		c := &cand{kind: kind, qc: nodesim.CloneQC(o), signedPayload: o.SignBytes(), signedFields: boundFields(o), nontrivial: true, desc: fmt.Sprintf("genuine certificate of height %d", o.Header.Height)}
 		c.signerKeys = nil // evaluated by binding (wrong height) alone
 		return c
 	}
@@ -560,10 +571,9 @@ func (e *env) genCandidate(t *rapid.T) *cand {
 // re-hashed and certified by a full quorum (a Byzantine quorum would be needed; the point is the inner re-check
 // Controller.CheckAndSetLastCertificate that every honest validator and every committing node performs)
 func (e *env) genLastQC(t *rapid.T) *cand {
-	// needs a Byzantine +2/3 quorum on ANOTHER block hash of this height; only offered to a victim that holds no validated
-	// proposal (see check.json assumptions: a quorum-certified block that fails execution drops the pending validated state
-	// while Consensus.BlockResult stays cached - outside the threat model of the property, reported as an observation)
-	if e.height <= 1 || e.cached {
+	// (needs a Byzantine +2/3 quorum on ANOTHER block hash of this height. Offered to victims with a pending validated
+	// proposal as well: that combination exposed finding KF-C07-stale-cached-result, fixed by /repo commit c8f856b)
+	if e.height <= 1 {
 		return e.genCandidateOf(t, "retarget")
 	}
 	blk := new(lib.Block)
@@ -696,7 +706,7 @@ func (e *env) expect(c *cand, committeeAt func(rootHeight uint64) (lib.Validator
 	if c.sigAltered || len(qc.Signature.Signature) != 96 {
 		return mustReject, "signature bytes altered"
 	}
-	if !bytes.Equal(c.signedPayload, qc.SignBytes()) {
+	if c.signedFields != boundFields(qc) {
 		return mustReject, "aggregate was made over another payload"
 	}
 	vs, ok := committeeAt(h.RootHeight)
@@ -869,7 +879,7 @@ func runChain(t *rapid.T, rec *ev.Rec) {
 		for ci := 0; ci < nCand; ci++ {
 			cands = append(cands, e.genCandidate(t))
 		}
-		if e.height > 1 && !e.cached {
+		if e.height > 1 {
 			cands = append(cands, e.genLastQC(t)) // the inner last-certificate re-check is reachable here: always try it
 		}
 		rank := func(c *cand) int {
